@@ -384,8 +384,11 @@ def _task(t):
         for case in cases:
             try:
                 data = C.save(c01.build_case(case))
-            except Exception:
+            except Exception as e:
                 C.count(r, "not-built")
+                if len(r["violations"]) < 20:
+                    r["violations"].append(C.viol("in-domain-object-cannot-be-built-or-saved", {"exc": type(e).__name__},
+                                                  {"error": repr(e)[:200]}, None))
                 continue
             st, vs, h = chain(data, cycles, dict(c01.case_key(case), built="c01"))
             for v in vs:
@@ -482,8 +485,11 @@ def _task(t):
             for cx in ("synth", "project"):
                 try:
                     data = C.save(mod.build_object(dict(case, ctx=cx)))
-                except Exception:
+                except Exception as e:
                     C.count(r, "not-built")
+                    if len(r["violations"]) < 20:
+                        r["violations"].append(C.viol("in-domain-object-cannot-be-built-or-saved", {"exc": type(e).__name__},
+                                                      {"error": repr(e)[:200]}, None))
                     continue
                 st, vs, h = chain(data, cycles, {"objects": which, "what": case["label"], "ctx": cx})
                 for v in vs:
@@ -504,8 +510,11 @@ def _task(t):
         for c in combos:
             try:
                 mod = deviate.build(tkey, c)
-            except Exception:
+            except Exception as e:
                 C.count(r, "deviation-rejected")
+                if len(r["violations"]) < 20:
+                    r["violations"].append(C.viol("in-domain-object-cannot-be-built-or-saved", {"type": tkey, "exc": type(e).__name__},
+                                                  {"error": repr(e)[:200], "devs": c}, None))
                 continue
             for cx in ctxs:
                 if cx == "project":
